@@ -155,7 +155,17 @@ def make_cases(ctx, rnd, tlc_inputs):
             cases.append(("seg", rs, (p,)))
             if len({(r["pl"], r["s"]) for r in rows}) == len({r["pl"] for r in rows}):
                 cases.append(("npl", rs, (p,)))
+    # min-merge on one sample with three (thorough: also four) plates of every size pattern over 1, 2, 4 in plate-name order, for the
+    # thresholds between the sums: which two plates are "the two smallest" must not depend on where they sit (a binary heap's second
+    # position is not its second smallest element)
+    import itertools
+    for sizes in list(itertools.product((1, 2, 4), repeat=3)) + ([] if ctx.quick else list(itertools.product((1, 2, 4), repeat=4))):
+        rows_ = [(1, (1 + (i % 4), 1 + ((i // 4) % 4)), p_, False) for p_, sz in enumerate(sizes) for i in range(sz)]
+        rs_ = RScreen([(s_, t_, p_, o_) for (s_, t_, p_, o_) in rows_])
+        for ms in (3, 5, 6):
+            cases.append(("mergemin", rs_, (ms,), 1))
     n_rand = 14 if ctx.quick else 120
+    rnd2 = random.Random(4711 + ctx.seed)
     for _ in range(n_rand):
         big = random_rscreen(rnd, rnd.randint(2, 14), rnd.randint(1, 4), rnd.randint(1, 5), arity=rnd.choice([2, 2, 2, 3, 1]))
         ssp = random_rscreen(rnd, rnd.randint(2, 14), rnd.randint(1, 4), rnd.randint(1, 6), one_sample_per_plate=True, single=0.1)
@@ -165,8 +175,9 @@ def make_cases(ctx, rnd, tlc_inputs):
                   ("fixed", big, (rnd.randint(1, 4),)), ("optimal", big, ()), ("npl", ssp, (rnd.randint(1, 3),)),
                   ("mergemin", ssp, (rnd.randint(1, 6),)), ("mergetb", ssp, (rnd.randint(1, 3),)),
                   ("ensemble", ssp, (rnd.randint(1, 5), rnd.randint(1, 2), rnd.randint(1, 2))),
-                  (rnd.choice(["mergemin_holdout", "mergetb_holdout"]), RScreen([(r_[0], r_[1], r_[2], False) for r_ in ssp.rows]),
-                   (rnd.randint(2, 6),) + rnd.choice([(0, 1), (1, 1), (1, 2), (2, 5), (3, 4)])),
+                  # (its parameters come from a generator of their own, so that the other cases are the ones they were before this one was added)
+                  (rnd2.choice(["mergemin_holdout", "mergetb_holdout"]), RScreen([(r_[0], r_[1], r_[2], False) for r_ in ssp.rows]),
+                   (rnd2.randint(2, 6),) + rnd2.choice([(0, 1), (1, 1), (1, 2), (2, 5), (3, 4)])),
                   ("holdout", big, rnd.choice([(0, 1), (1, 1), (1, 2), (1, 4), (3, 4), (1, 8), (4, 5), (9, 10), (1, 3), (7, 10), (5, 6)])),
                   ("random_holdout", big, rnd.choice([(0, 1), (1, 1), (1, 2), (1, 4), (3, 8), (4, 5), (1, 3), (9, 10)]))]
     # plates that hold more than one sample (also with the same sample in the first and the last row): a merge smoother refuses them
